@@ -35,6 +35,8 @@ struct Mmu {
     std::map<uintptr_t, Region> regions;
     uint64_t next_ordinal = 0;
     uint64_t n_map_calls = 0, n_unmap_calls = 0, n_mprotect_einval = 0;
+    bool mprotect_fails = false;  // injected fault: every mprotect() inside the current operation fails with ENOMEM
+    uint64_t n_mprotect_refused = 0;
     int lock_policy = 0; // 0 succeed, 1 fail ENOMEM, 2 fail EPERM, 3 alternate
     uint64_t lock_calls = 0, lock_failed = 0;
     std::vector<std::string> anomalies;
@@ -124,6 +126,7 @@ int h_mprotect(void *addr, size_t len, int prot) {
     int rc;
     uintptr_t a = (uintptr_t) addr;
     if (a % M.P != 0) { M.n_mprotect_einval++; errno = EINVAL; rc = -1; } // what a kernel with this page size answers
+    else if (M.mprotect_fails) { M.n_mprotect_refused++; errno = ENOMEM; rc = -1; } // e.g. the VMA split would exceed vm.max_map_count
     else {
         size_t rl = (len + M.P - 1) / M.P * M.P;
         Region *r = M.find(a);
@@ -179,8 +182,10 @@ void h_abort(void) {
 void h_assert_fail(const char *e, const char *, unsigned, const char *) {
     if (g_term_armed) { g_term_how = std::string("assert(") + e + ")"; g_unmaps_at_term = M.n_unmap_calls; siglongjmp(g_term_env, 1); }
 }
+volatile int g_segv_terminates = 0; // inside a free whose mprotect() was made to fail, a real fault is how the process dies
 void segv_handler(int sig, siginfo_t *info, void *) {
     if (g_probing) { g_fault_addr = (uintptr_t) info->si_addr; siglongjmp(g_probe_env, 1); }
+    if (g_term_armed && g_segv_terminates) { g_term_how = "a fatal SIGSEGV"; g_unmaps_at_term = M.n_unmap_calls; siglongjmp(g_term_env, 1); }
     signal(sig, SIG_DFL);
     simos_real_raise(sig);
 }
@@ -198,8 +203,8 @@ bool probe_write(uintptr_t a, unsigned char v) {
 }
 
 // ---------------- plan ----------------
-enum OpKind { O_MALLOC = 0, O_ALLOCARRAY, O_NOACCESS, O_READONLY, O_READWRITE, O_PROBE, O_WRITE, O_TAMPER, O_FREE, O_FREE_NULL, O_FORK, O_NKINDS };
-const char *op_name[O_NKINDS] = {"malloc", "allocarray", "noaccess", "readonly", "readwrite", "probe", "write", "tamper", "free", "free_null", "fork_and_free_in_child"};
+enum OpKind { O_MALLOC = 0, O_ALLOCARRAY, O_NOACCESS, O_READONLY, O_READWRITE, O_PROBE, O_WRITE, O_TAMPER, O_FREE, O_FREE_NULL, O_FORK, O_REINIT, O_NKINDS };
+const char *op_name[O_NKINDS] = {"malloc", "allocarray", "noaccess", "readonly", "readwrite", "probe", "write", "tamper", "free", "free_null", "fork_and_free_in_child", "sodium_init_again"};
 enum { PR_RW = 0, PR_RO = 1, PR_NONE = 2 };
 const char *prot_name[3] = {"readwrite", "readonly", "noaccess"};
 
@@ -208,6 +213,7 @@ struct Op {
     uint64_t size = 0, count = 0; // malloc: size; allocarray: count x size
     uint32_t idx = 0;             // which live allocation (mod live count)
     uint32_t a = 0, b = 0;        // offsets / byte index / value
+    bool fault = false;           // free / protection ops: mprotect() fails with ENOMEM while this operation runs
 };
 struct PlanT { Json pk; uint64_t content_seed = 0; int lock_policy = 0; bool signal_ignored = false; std::vector<Op> ops; };
 
@@ -366,8 +372,18 @@ struct Exec {
         Alloc &al = live[op.idx % live.size()];
         int want = op.kind == O_NOACCESS ? PR_NONE : op.kind == O_READONLY ? PR_RO : PR_RW;
         int rc;
+        M.mprotect_fails = op.fault;
         { LibScope l; rc = want == PR_NONE ? sodium_mprotect_noaccess((void *) al.p) : want == PR_RO ? sodium_mprotect_readonly((void *) al.p) : sodium_mprotect_readwrite((void *) al.p); }
+        M.mprotect_fails = false;
         dg.add((uint64_t) rc);
+        if (op.fault) {
+            // the kernel refused: nothing is promised about the return value, but the allocation is still in its old state,
+            // stays usable as such, and later transitions and the free must work as if this call had not been made
+            res.count("fault.mprotect_enomem_in_transition");
+            cross_check("after-failed-transition");
+            if (!res.violated) check_access(al, op.a, "after-failed-transition");
+            return;
+        }
         res.count(std::string("fault.transition.") + prot_name[al.prot] + "->" + prot_name[want]);
         if (rc != 0) { res.fail("mprotect-failed", prot_name[want], std::string("sodium_mprotect_") + prot_name[want] + " returned " + std::to_string(rc), step); return; }
         al.prot = want;
@@ -415,6 +431,8 @@ struct Exec {
         size_t regions0 = M.regions.size();
         bool terminated = false;
         g_term_how.clear();
+        M.mprotect_fails = op.fault;
+        g_segv_terminates = op.fault;
         if (sigsetjmp(g_term_env, 1) == 0) {
             g_term_armed = 1;
             simos_enter();
@@ -426,7 +444,9 @@ struct Exec {
             simos_reset_thread();
             terminated = true;
         }
+        M.mprotect_fails = false; g_segv_terminates = 0;
         dg.add((uint64_t) terminated);
+        if (op.fault) res.count("fault.mprotect_enomem_in_free");
         res.count(std::string("fault.free_from.") + prot_name[al.prot]);
         live.erase(live.begin() + (long) i);
         if (!al.canary_ok) {
@@ -440,6 +460,19 @@ struct Exec {
                 else { simos_real_mprotect((void *) it->second.base, it->second.len, PROT_READ | PROT_WRITE); simos_real_free((void *) it->second.base); }
                 M.regions.erase(it);
             }
+            return;
+        }
+        if (op.fault) {
+            // mprotect() failed inside the free of an intact block: whether the free completes or the process dies on a page
+            // it could not make writable is not constrained; only a tampered canary going unnoticed (above) is a violation
+            M.anomalies.clear();
+            auto it = M.regions.find(al.region);
+            if (it != M.regions.end()) {
+                if (it->second.kind == 'M') simos_real_munmap((void *) it->second.base, it->second.len);
+                else { simos_real_mprotect((void *) it->second.base, it->second.len, PROT_READ | PROT_WRITE); simos_real_free((void *) it->second.base); }
+                M.regions.erase(it);
+            }
+            res.count(terminated ? "probe.faulted_free_died" : "probe.faulted_free_completed");
             return;
         }
         if (terminated) { res.fail("free-terminated", prot_name[al.prot], "sodium_free of an intact allocation (state " + std::string(prot_name[al.prot]) + ", size " + std::to_string(al.size) + ") terminated the process via " + g_term_how, step); return; }
@@ -499,6 +532,7 @@ struct Exec {
             case O_FREE: do_free(op); break;
             case O_FREE_NULL: { LibScope l; sodium_free(nullptr); break; }
             case O_FORK: if (!live.empty()) do_fork(); break;
+            case O_REINIT: { int rc; { LibScope l; rc = sodium_init(); } dg.add((uint64_t) rc); res.count("fault.sodium_init_again"); cross_check("after-reinit"); break; }
             }
             res.steps++;
         }
@@ -526,7 +560,7 @@ struct C17 {
     static const char *name() { return "c17_guard"; }
     static const char *level() { return "exploration"; }
     static const char *rule() {
-        return "seeded histories of <=40 ops {malloc(size), allocarray(count,size), noaccess/readonly/readwrite(i), probe(i), write(i), tamper(i, canary byte k, bit), free(i), free(NULL)} "
+        return "seeded histories of <=40 ops {malloc(size), allocarray(count,size), noaccess/readonly/readwrite(i), probe(i), write(i), tamper(i, canary byte k, bit), free(i), free(NULL), fork, sodium_init() again} "
                "over <=6 live guarded allocations, on a simulated MMU with page size 4K/16K/64K (knob) and mlock/madvise failing by policy (knob). sizes: k*page+d for k in 0..3 and "
                "d in {-17..17}, every residue mod 16, random, sizes near SIZE_MAX, 2^27..2^62; (count,size) pairs around every overflow boundary. After every op the model page table is "
                "checked for ALL live allocations and real accesses are probed under a SIGSEGV handler. every run is non-trivial (at least one allocation is placed and probed); "
@@ -612,9 +646,12 @@ struct C17 {
             else if (c < 70) op.kind = O_PROBE;
             else if (c < 78) op.kind = O_WRITE;
             else if (c < 84) op.kind = O_TAMPER;
-            else if (c < 96) op.kind = O_FREE;
-            else if (c < 98) op.kind = O_FORK;
+            else if (c < 95) op.kind = O_FREE;
+            else if (c < 97) op.kind = O_FORK;
+            else if (c < 99) op.kind = O_REINIT;
             else op.kind = O_FREE_NULL;
+            if (op.kind == O_FREE) op.fault = f.chance(1, 8);
+            else if (op.kind == O_NOACCESS || op.kind == O_READONLY || op.kind == O_READWRITE) op.fault = f.chance(1, 16);
             p.ops.push_back(op);
         }
         return p;
@@ -629,7 +666,7 @@ struct C17 {
             q["op"] = op_name[o.kind];
             if (o.kind == O_MALLOC) q["size"] = o.size;
             else if (o.kind == O_ALLOCARRAY) { q["count"] = o.count; q["size"] = o.size; }
-            else if (o.kind != O_FREE_NULL && o.kind != O_FORK) { q["i"] = o.idx; if (o.kind == O_PROBE || o.kind == O_WRITE || o.kind == O_TAMPER || o.kind <= O_READWRITE) { q["a"] = o.a; q["b"] = o.b; } }
+            else if (o.kind != O_FREE_NULL && o.kind != O_FORK && o.kind != O_REINIT) { q["i"] = o.idx; if (o.fault) q["mprotect_fails"] = true; if (o.kind == O_PROBE || o.kind == O_WRITE || o.kind == O_TAMPER || o.kind <= O_READWRITE) { q["a"] = o.a; q["b"] = o.b; } }
             ops.push(q);
         }
         j["ops"] = ops;
@@ -642,6 +679,7 @@ struct C17 {
             Op o;
             for (int i = 0; i < O_NKINDS; i++) if (q.at("op").str() == op_name[i]) o.kind = i;
             o.size = q.at("size").u64(); o.count = q.at("count").u64(); o.idx = (uint32_t) q.at("i").u64(); o.a = (uint32_t) q.at("a").u64(); o.b = (uint32_t) q.at("b").u64();
+            o.fault = q.at("mprotect_fails").boolean();
             p.ops.push_back(o);
         }
         return p;
@@ -657,6 +695,7 @@ struct C17 {
         for (size_t i = 0; i < p.ops.size(); i++) {
             const Op &o = p.ops[i];
             if (o.idx) { Plan c = p; c.ops[i].idx = 0; out.push_back(c); }
+            if (o.fault) { Plan c = p; c.ops[i].fault = false; out.push_back(c); }
             if (o.kind == O_MALLOC && o.size > 64 && o.size < ((uint64_t) 1 << 26)) {
                 size_t P = (size_t) p.pk.at("page_size").u64(4096);
                 if (o.size % P != o.size) { Plan c = p; c.ops[i].size = o.size % P; out.push_back(c); } // keep the residue, drop whole pages
@@ -679,7 +718,7 @@ struct C17 {
         comp["real"] = real; comp["stub"] = stub;
         ev["components"] = comp;
         Json as = Json::array();
-        as.push("mprotect and mmap failures are not injected here (mapping failure is C20; failing mprotect is outside every given property)");
+        as.push("mmap failures are not injected here (mapping failure is C20). mprotect() is made to fail with ENOMEM only inside sodium_free() and the sodium_mprotect_*() calls (1 in 8 / 1 in 16 of them); there the oracle is narrowed: a tampered canary must still terminate the process (a fatal SIGSEGV counts), an intact block may be freed or not, a refused transition leaves the old state in force. it is not injected inside sodium_malloc(), whose guard-page mprotect results the library ignores by design");
         as.push("'oversized' is taken as size >= SIZE_MAX - 4 pages (must fail with ENOMEM without reaching the OS); sizes of 2^27..2^62 bytes are refused by the simulated OS and must fail with ENOMEM");
         as.push("the pattern check is 'every byte non-zero', not a particular value");
         ev["assumptions"] = as;
